@@ -805,8 +805,73 @@ impl<K: KeyT> SetWorld<K> {
         Ok(())
     }
 
+    /// `HashSet::from([T; N])` (default hasher only; see the map world): same contents as inserting in order (the
+    /// first instance of equal elements is kept), every instance dropped exactly once.
+    fn op_from_array(&mut self, ids: &[u32]) -> VResult {
+        type DSet<K> = hashbrown::HashSet<K, hashbrown::DefaultHashBuilder, SimAlloc>;
+        fn build<K: KeyT, const N: usize>(items: Vec<K>) -> DSet<K> {
+            let arr: [K; N] = match items.try_into() {
+                Ok(a) => a,
+                Err(_) => unreachable!(),
+            };
+            DSet::from(arr)
+        }
+        let items: Vec<K> = ids.iter().map(|&i| K::make(i)).collect();
+        let toks: Vec<SE> = items.iter().map(|k| (k.id(), k.serial())).collect();
+        sim().probe(Probe::FromArray);
+        sim().quiet = true;
+        let r = std::panic::catch_unwind(std::panic::AssertUnwindSafe(|| {
+            let s: DSet<K> = match items.len() {
+                0 => build::<K, 0>(items),
+                1 => build::<K, 1>(items),
+                2 => build::<K, 2>(items),
+                3 => build::<K, 3>(items),
+                4 => build::<K, 4>(items),
+                5 => build::<K, 5>(items),
+                _ => build::<K, 8>(items),
+            };
+            let got: Vec<SE> = s.iter().map(|k| (k.id(), k.serial())).collect();
+            let len = s.len();
+            let ok = s.iter().all(|k| k.intact());
+            drop(s);
+            (got, len, ok)
+        }));
+        sim().quiet = false;
+        let (mut got, len, ok) = match r {
+            Ok(x) => x,
+            Err(_) => vio!(self, "panic/FromIter", "HashSet::from(array of {} elements) panicked", toks.len()),
+        };
+        if !ok {
+            vio!(self, "ledger/invalid-ref", "HashSet::from(array) holds an element that is not live");
+        }
+        let mut want: Vec<SE> = Vec::new();
+        for t in &toks {
+            if !want.iter().any(|e| e.0 == t.0) {
+                want.push(*t);
+            }
+        }
+        got.sort();
+        want.sort();
+        if got != want || len != want.len() {
+            vio!(self, "ret/FromIter", "HashSet::from(array of {} elements) holds {:?} (len() {len}), inserting in order gives {:?}", toks.len(), got, want);
+        }
+        if K::HAS_SERIAL {
+            let s = sim();
+            for t in &toks {
+                if s.serial_state[t.1 as usize] != 2 {
+                    drop(s);
+                    vio!(self, "ledger/leak", "after HashSet::from(array) and dropping the set instance {:?} was not dropped exactly once", t);
+                }
+            }
+        }
+        Ok(())
+    }
+
     fn op_extend(&mut self, si: usize, op: &Op) -> VResult {
         let ids: Vec<u32> = op.v.chunks(2).map(|c| c[0] as u32 % K::UNIVERSE).collect();
+        if op.k == Kd::FromIter && op.b == 1 && op.f.is_none() && self.ctx.functional() && self.ctx.cfg.eq_mode == crate::state::EqMode::Lawful && matches!(ids.len(), 0..=5 | 8) {
+            return self.op_from_array(&ids);
+        }
         let items: Vec<K> = ids.iter().map(|&i| K::make(i)).collect();
         let toks: Vec<SE> = items.iter().map(|k| (k.id(), k.serial())).collect();
         let mut fc = self.fctx(si, op);
